@@ -357,7 +357,11 @@ pub fn guided_lt_msg(rng: &mut impl Rng, d: &Driver) -> MsgSpec {
             65..=76 => mk(3, 401, if r(3) == 0 { good } else { "none" }, challenge(&mut r)),
             77..=82 => mk(2, 0, if good == "sha" { "mi" } else { "sha" }, json!({})),
             83..=88 => mk(2, 0, if good == "sha" { "sha_bad" } else { "mi_bad" }, json!({})),
-            89..=93 => mk(2, 0, if good == "sha" { "sha_otherpw" } else { "mi_otherpw" }, json!({})),
+            89..=91 => mk(2, 0, if good == "sha" { "sha_otherpw" } else { "mi_otherpw" }, json!({})),
+            // both integrity attributes on a success / error response (valid ones, or the one in force
+            // invalid and the other valid)
+            92 => mk(2, 0, "both", json!({})),
+            93 => mk(if r(2) == 0 { 2 } else { 3 }, 420, if good == "sha" { "sha_bad_and_mi" } else { "mi_bad_and_sha" }, json!({})),
             94 => {
                 if r(2) == 0 {
                     mk(2, 0, "both", json!({}))
@@ -431,6 +435,48 @@ pub fn wide_script(rng: &mut impl Rng) -> (Cfg, Vec<Step>) {
     }
     for _ in 0..(4 * n) {
         steps.push(Step::Timeout { at: TimeSpec::NextExpiry((r() % 3) as i64) });
+    }
+    (cfg, steps)
+}
+
+/// "ltmark" profile: a long-term client that has authenticated, one request whose first reply fails
+/// authentication (it is marked on an unreliable transport), then replies for the same request that
+/// must be refused WITHOUT touching that marker (both integrity attributes, the one in force wrong
+/// next to a right one of the other kind, 401 / 438 lacking REALM / NONCE with right or wrong integrity,
+/// indications carrying its id), and finally the time-outs up to the outcome.
+pub fn ltmark_script(rng: &mut impl Rng) -> (Cfg, Vec<Step>) {
+    let mut cfg = random_cfg(rng, "lt");
+    cfg.mech = "lt".to_string();
+    cfg.reliable = rng.random_range(0..100) < 15;
+    cfg.rc = *pick(rng, &[1u32, 2, 3]);
+    cfg.rm = *pick(rng, &[1u32, 2]);
+    cfg.rto_us = *pick(rng, &[20_000u64, 100_000]);
+    cfg.gran_us = 1000;
+    cfg.max_tx = 3;
+    let with_algs = rng.random_bool(0.5);
+    let good = if with_algs { "sha" } else { "mi" };
+    let bad = if with_algs { "sha_bad" } else { "mi_bad" };
+    let other = if with_algs { "mi" } else { "sha" };
+    let bad_and_other = if with_algs { "sha_bad_and_mi" } else { "mi_bad_and_sha" };
+    let mk = |class: u8, code: u16, auth: &str, lt: Value| Step::Recv { at: TimeSpec::Dt(500), msg: MsgSpec {
+        target: Target::Tx(0), class, method: None, code, auth: auth.to_string(), fp: "auto".to_string(), lt, raw: None, hostile: Value::Null } };
+    let send = || Step::Send { at: TimeSpec::Dt(200), method: 1, app: vec![], buf: 1024 };
+    let chall = json!({"realm":"ok","nonce": if with_algs {"fresh_cookie"} else {"fresh"},"pa":with_algs,"ua":false,
+                       "algs": if with_algs {"md5_sha"} else {"none"},"dup":false});
+    let stale = json!({"nonce":"absent","realm":"ok"});
+    let norealm = json!({"nonce":"fresh","realm":"absent","algs":"none","pa":false,"ua":false,"dup":false});
+    let mut steps = vec![send(), mk(3, 401, "none", chall), send(), mk(2, 0, good, json!({})), send(), mk(2, 0, bad, json!({}))];
+    let pool: Vec<Step> = vec![
+        mk(2, 0, "both", json!({})), mk(3, 420, "both", json!({})), mk(2, 0, bad_and_other, json!({})), mk(2, 0, other, json!({})),
+        mk(3, 438, good, stale.clone()), mk(3, 438, bad, stale.clone()), mk(3, 401, good, norealm.clone()), mk(3, 401, bad, norealm),
+        mk(1, 0, good, json!({})), mk(1, 0, bad, json!({})), mk(0, 0, good, json!({})), mk(2, 0, "none", json!({})),
+        mk(3, 438, other, json!({"nonce": if with_algs {"fresh_cookie"} else {"fresh"}, "pa": with_algs, "ua": false, "realm":"ok"})),
+    ];
+    for _ in 0..rng.random_range(2..=5) {
+        steps.push(pool[rng.random_range(0..pool.len())].clone());
+    }
+    for _ in 0..8 {
+        steps.push(Step::Timeout { at: TimeSpec::NextExpiry(rng.random_range(0..2)) });
     }
     (cfg, steps)
 }
